@@ -11,6 +11,7 @@ import (
 	"github.com/massnetorg/mass-core/poc"
 	"github.com/massnetorg/mass-core/poc/chiapos"
 	"github.com/massnetorg/mass-core/poc/pocutil"
+	"massnet.org/mass/verifhook"
 )
 
 // ---------------------------------------
@@ -366,6 +367,7 @@ func (prw *ProofRW) Write(wsp *WorkSpaceProof) error {
 	if prw.closed {
 		return ErrProofIOTimeout
 	}
+	verifhook.Point("proofrw.send", prw.ctx)
 	prw.ch <- wsp
 	return nil
 }
